@@ -61,6 +61,7 @@ def gamma_family(name, n, rng):
     if name == 'large':
         g = rng.uniform(-50, 50, n)
         g[::3] *= 6.0           # up to +-300
+        g[1::4] = rng.uniform(-2000, 2000, len(g[1::4]))      # beyond the range of exp (gamma(0) ~ 1000 occurs for large particles)
         return g
     if name == 'ramp':
         return np.linspace(-1.5, 4.0, n)
